@@ -16,6 +16,9 @@ correspond(): exhaustive over kinds.
       every name of every module list vs `convert`; identical canonical pars across spellings; identical results of
       the spellings (quick: a few configurations; thorough: all diseases/networks that run stand-alone).
   (5) user-held module objects compared deeply before / after two sims share them; identity of what the sims hold.
+  (6) round 3 (harness/props/c17_refs.py): per-network beta dicts of every Infection class resolved at sim.init() vs `resolve`
+      (Model/ParsRefs.lean), ss.standardize_netkey vs stdKey, the regenerated ownership table vs live before/after comparisons,
+      one spec dict used for two parameters vs `useTwice`.
 search(): the property evaluated directly on the real code, with concrete replays:
   supplied value is in effect (its sentinel is found in the object graph under pars[par], every name of a supplied
   dict is a name the target understands) or an error was raised; unknown keys raise at every route; bad values raise;
@@ -33,7 +36,9 @@ RULE = ('exhaustive: every constructible class of ss.find_modules() x every para
         'sampled classes, 7 spellings x every registered name; seeded part: sentinel values, sampled classes for routes, '
         'configurations for result equality. distinct = distinct (class, parameter, old kind, new kind, route); '
         'non-trivial = the update reached a non-`set` branch or an error')
-TRUSTED = ['the harness classifies live objects into the model\'s kinds (okind_of / value factory) — cross-checked by the class-facts '
+TRUSTED = ['round 3: the documented network-name normalisation (lower case, optional `net` suffix) is re-derived in harness/props/c17_refs.py for the '
+           'model-free name-keyed oracle; harness/extractors/pars_refs.py recognises the shapes of key guards and of fresh-copy expressions',
+           'the harness classifies live objects into the model\'s kinds (okind_of / value factory) — cross-checked by the class-facts '
            'comparison (0) on every run',
            'inspect.signature of a distribution class lists the parameter names that distribution understands (used by the oracle)']
 ASSUMPTIONS = ['value kinds abstract values: within one kind the code path depends only on the classes tested by the chain '
